@@ -37,6 +37,15 @@ CLAIMS = {
             'its own slice of dx; the hypothesis "slots distinct" is shown necessary by a refuting witness.',
             AX + 'hand-written model lib/GraphModel.v (dictionaries in insertion order, slice writes as pointwise block writes) validated on every run by an EXACT integer correspondence against graph.py; spsolve is not modelled (theorems quantify over every increment / every solution of H dx = -b); lil_matrix, dict order and set membership are modelled, not verified.',
             'Coq proof (induction over edge list / dictionary / vertex list, pointwise sums) + exact integer correspondence'),
+    'C04': ('proof',
+            'Theorem C04 (coq/props/C04.v): the R^2/R^3 odometry and landmark programs regenerated from the source are affine with the constant '
+            'Jacobians they report; for graphs of such edges (any topology, multi-edges, offsets, any fixed set) one exact Gauss-Newton step from ANY '
+            'start yields zero gradient, the Hessian does not depend on the state, a zero-gradient state is a fixed point (injective H), chi2 expands '
+            'exactly as chi2* + 2 b.d + sum (J d)^T Omega (J d), hence a zero-gradient state is a global minimiser for PSD information and the unique one '
+            'for an injective Hessian. That optimize() reaches it in doubles from starts 1e6 away and reports its chi2 is checked by the oracle '
+            '(independent numpy lstsq).',
+            AX + 'hand-written model lib/GraphModel.v (dictionaries in insertion order, slice writes as pointwise block writes) validated on every run by an EXACT integer correspondence against graph.py; spsolve is not modelled (theorems quantify over every increment / every solution of H dx = -b); lil_matrix, dict order and set membership are modelled, not verified.' + TR,
+            'Coq proof (Gauss-Newton algebra over GNSpec: flat-to-block sums, symmetry of Omega) + exact integer correspondence + lstsq oracle'),
     'C06': ('proof',
             'Theorem C06 (coq/props/C06.v): on a fixed vertex the assembled gradient is 0 and the Hessian row/column is the identity pattern, so ANY '
             'solution of the normal equations has a zero increment there; the update loop skips fixed vertices, so they keep their pose for any number '
@@ -116,6 +125,15 @@ CLAIMS = {
             'Tied to the code by running the model inside Coq on generated files vs Graph.from_g2o and all five loaders.',
             'Trusted: Coq kernel (closed under the global context); float()/int() answers supplied by Python as tables (oracle); hand model validated by correspondence.',
             'Coq proof over hand-written model + exact correspondence on generated files'),
+    'C15': ('proof',
+            'PARTIAL. Theorem C15 (coq/props/C15.v): on the store-effect table regenerated from every method of the package (tools/tr_effects.py: '
+            'attribute/subscript stores, augmented assignments, in-place mutators, out= arguments, calls followed transitively by name) every query '
+            '(errors, chi2, analytic Jacobians, contributions, equals, exports) stores to no pose, measurement, information matrix, offset, fixed flag, id or '
+            'binding; the numerical-Jacobian path stores only to the pose attribute of its vertices (restored: C16); pose operators never write into their '
+            'operands; optimize() stores only to vertex poses, the fixed flag, private caches and fresh objects. Finite space, proved by computation, '
+            'with rejecting examples. NOT covered by the theorem: aliasing through shared objects / numpy views and repeatability of values -- bitwise-snapshot oracle only.',
+            'Trusted: Coq kernel (closed under the global context); the effect translator is a conservative syntactic analysis, not a semantics of Python; its adequacy is validated only by the oracle.',
+            'Coq proof by computation over a regenerated effect table + bitwise-snapshot oracle under random query interleavings'),
     'C17': ('proof',
             'Theorems C17_total, C17_iff, C17_refl, C17_near, C17_far, C17_structural (coq/props/C17.v) over the hand-written model '
             'lib/EqualsModel.v of the five equals methods with Python failure modes explicit (VRaise): for all well-formed poses, vertices, '
